@@ -3,6 +3,7 @@ package core
 import (
 	"bytes"
 	"fmt"
+	"runtime/debug"
 	"sort"
 	"strings"
 
@@ -232,9 +233,29 @@ func Lattice() []Cfg {
 
 // Conv wraps one Markdown instance with a reusable buffer and panic capture.
 type Conv struct {
-	Cfg Cfg
-	MD  goldmark.Markdown
-	buf bytes.Buffer
+	Cfg  Cfg
+	MD   goldmark.Markdown
+	Site string // innermost goldmark frame of the last recovered panic
+	buf  bytes.Buffer
+	buf2 bytes.Buffer
+}
+
+// PanicSite extracts the innermost goldmark function from the current goroutine's stack (call inside recover).
+func PanicSite() string {
+	st := string(debug.Stack())
+	i := strings.Index(st, "panic(")
+	if i < 0 {
+		i = 0
+	}
+	for _, ln := range strings.Split(st[i:], "\n") {
+		if strings.HasPrefix(ln, "github.com/yuin/goldmark") {
+			if j := strings.LastIndex(ln, "("); j > 0 {
+				ln = ln[:j]
+			}
+			return strings.TrimPrefix(ln, "github.com/yuin/goldmark")
+		}
+	}
+	return "?"
 }
 
 // NewConv builds a converter for cfg.
@@ -246,6 +267,7 @@ func (c *Conv) Convert(src []byte) (out []byte, err error, pan any) {
 		if p := recover(); p != nil {
 			pan = p
 			out = nil
+			c.Site = PanicSite()
 		}
 	}()
 	c.buf.Reset()
@@ -259,6 +281,7 @@ func (c *Conv) Parse(src []byte) (doc ast.Node, pan any) {
 		if p := recover(); p != nil {
 			pan = p
 			doc = nil
+			c.Site = PanicSite()
 		}
 	}()
 	return c.MD.Parser().Parse(text.NewReader(src)), nil
@@ -270,11 +293,12 @@ func (c *Conv) Render(src []byte, doc ast.Node) (out []byte, err error, pan any)
 		if p := recover(); p != nil {
 			pan = p
 			out = nil
+			c.Site = PanicSite()
 		}
 	}()
-	c.buf.Reset()
-	err = c.MD.Renderer().Render(&c.buf, src, doc)
-	return c.buf.Bytes(), err, nil
+	c.buf2.Reset()
+	err = c.MD.Renderer().Render(&c.buf2, src, doc)
+	return c.buf2.Bytes(), err, nil
 }
 
 // GoTestFor returns a stand-alone Go test reproducing a conversion.
